@@ -387,3 +387,162 @@ example :
     lastHit (walk (fun j => [3, 2, 1, 4, 0].getD j 0) 5 0) 3 = 4 := by decide
 
 end Rl4co.Improve.Check
+
+namespace Rl4co.Improve.Check
+open Rl4co.Spec.Improve
+
+/-! ### the repaired clause: adding "every node was stamped" makes both checkers exact -/
+
+/-- a node is stamped by the `visited_time` walk iff the walk meets it -/
+theorem stamped_iff_mem (r : Rec) (n x : Nat) : 0 < visitedTime n r x ↔ x ∈ walk r n 0 := by
+  rw [visitedTime_eq_lastHit]
+  unfold lastHit
+  by_cases h : x ∈ walk r n 0
+  · simp only [h, if_true, iff_true]
+    have := List.idxOf_lt_length_of_mem (List.mem_reverse.mpr h)
+    simp at this; omega
+  · simp [h]
+
+/-- the k-opt checker with the missing clause `(visited_time > 0).all()` added -/
+def checkKoptRepaired (n : Nat) (r : Rec) : Bool :=
+  checkKopt n r && (List.range n).all (fun j => decide (0 < visitedTime n r j))
+
+/-- the PDP checker with the same clause added -/
+def checkPdpRepaired (gs : Nat) (r : Rec) : Bool :=
+  checkPdp gs r && (List.range gs).all (fun j => decide (0 < visitedTime gs r j))
+
+/-- **C06 (repaired k-opt checker).** with the clause "every node is met by the walk from node 0" the checker
+accepts exactly the single `n`-cycles: sound AND complete. -/
+theorem kopt_repaired_iff (r : Rec) (n : Nat) (hn : 0 < n) : checkKoptRepaired n r = true ↔ IsTour r n := by
+  rw [kopt_valid_iff r n hn]
+  simp only [checkKoptRepaired, Bool.and_eq_true, List.all_eq_true, List.mem_range, decide_eq_true_eq,
+    stamped_iff_mem]
+
+/-- **C06 (repaired PDP checker).** accepts exactly the valid PDP tours. -/
+theorem pdp_repaired_iff (r : Rec) (gs : Nat) (hodd : gs % 2 = 1) : checkPdpRepaired gs r = true ↔ PdpValid r gs := by
+  rw [pdp_valid_iff r gs hodd]
+  simp only [checkPdpRepaired, Bool.and_eq_true, List.all_eq_true, List.mem_range, decide_eq_true_eq,
+    stamped_iff_mem]
+
+/-- the two accepted non-tours of the known findings are rejected by the repaired checkers -/
+example : checkKoptRepaired 4 (fun j => [1, 0, 3, 2].getD j 0) = false ∧
+    checkPdpRepaired 5 (fun j => [3, 2, 1, 4, 0].getD j 0) = false := by
+  constructor
+  · have : ¬ IsTour (fun j => [1, 0, 3, 2].getD j 0) 4 := fun h => by
+      have := isTourB_of_isTour _ _ h; revert this; decide
+    rw [← kopt_repaired_iff _ 4 (by omega)] at this; simpa using this
+  · have : ¬ PdpValid (fun j => [3, 2, 1, 4, 0].getD j 0) 5 := fun ⟨rest, hp, hc, _⟩ => by
+      have := isTourB_of_isTour _ 5 ⟨_, hp, hc⟩; revert this; decide
+    rw [← pdp_repaired_iff _ 5 (by decide)] at this; simpa using this
+
+/-! ### Spec-level sanity -/
+
+/-- a tour exists for every size: the round trip `j ↦ j + 1 mod n` -/
+theorem isTour_succ_mod (n : Nat) (hn : 0 < n) : IsTour (fun j => (j + 1) % n) n := by
+  apply isTour_of_isTourB
+  have hw : ∀ (k x : Nat), x + k ≤ n → x < n →
+      walk (fun j => (j + 1) % n) k x = (List.range k).map (fun i => (x + i + 1) % n) := by
+    intro k
+    induction k with
+    | zero => intro x _ _; rfl
+    | succ k ih =>
+      intro x hx hxn
+      simp only [walk]
+      by_cases hlast : x + 1 < n
+      · rw [Nat.mod_eq_of_lt hlast, ih (x + 1) (by omega) hlast, List.range_succ_eq_map]
+        simp only [List.map_cons, List.map_map, Nat.add_zero, Nat.mod_eq_of_lt hlast]
+        congr 1
+        apply List.map_congr_left
+        intro i _; simp; congr 1; omega
+      · have hk : k = 0 := by omega
+        subst hk; simp [walk]
+  have h0 := hw n 0 (by omega) hn
+  simp only [Nat.zero_add] at h0
+  -- the walk is 1, 2, …, n-1, 0
+  have hlist : walk (fun j => (j + 1) % n) n 0 = (List.range (n - 1)).map (· + 1) ++ [0] := by
+    rw [h0]
+    obtain ⟨m, rfl⟩ : ∃ m, n = m + 1 := ⟨n - 1, by omega⟩
+    rw [List.range_succ, List.map_append]
+    simp only [Nat.add_sub_cancel, List.map_cons, List.map_nil, Nat.mod_self]
+    congr 1
+    apply List.map_congr_left
+    intro i hi
+    exact Nat.mod_eq_of_lt (by have := List.mem_range.mp hi; omega)
+  simp only [isTourB, hlist, Bool.and_eq_true, decide_eq_true_eq, List.all_eq_true, Bool.or_eq_true, beq_iff_eq]
+  refine ⟨⟨?_, ?_⟩, Or.inr (by simp)⟩
+  · rw [List.nodup_append]
+    refine ⟨?_, by simp, ?_⟩
+    · rw [List.Nodup, List.pairwise_map]
+      exact (List.pairwise_lt_range).imp (by intro a b h; omega)
+    · intro a ha b hb; simp at ha hb; omega
+  · intro x hx
+    simp only [List.mem_append, List.mem_map, List.mem_range, List.mem_cons, List.not_mem_nil, or_false] at hx
+    rcases hx with ⟨i, hi, rfl⟩ | rfl <;> omega
+
+/-- `Before` is a strict order on duplicate-free sequences: never both ways, never reflexive -/
+theorem before_asymm (l : List Nat) (hnd : l.Nodup) (x y : Nat) (h : Before l x y) : ¬ Before l y x := by
+  have hx : x ∈ l := h.subset (by simp)
+  have hy : y ∈ l := h.subset (by simp)
+  by_cases hxy : x = y
+  · subst hxy
+    intro _
+    have : [x, x].Nodup := h.nodup hnd
+    simp at this
+  · intro h'
+    have h1 := (before_iff_idxOf l hnd x y hx hy hxy).mp h
+    have h2 := (before_iff_idxOf l hnd y x hy hx (Ne.symm hxy)).mp h'
+    omega
+
+theorem perm_sum_int {l1 l2 : List Int} (h : l1.Perm l2) : l1.sum = l2.sum := by
+  induction h with
+  | nil => rfl
+  | cons x _ ih => simp [ih]
+  | swap x y l => simp only [List.sum_cons]; omega
+  | trans _ _ ih1 ih2 => omega
+
+/-- the tour length does not depend on where the cyclic listing starts: it is the sum of `D` along the listing -/
+theorem cost_eq_sum_listing (n : Nat) (D : Nat → Nat → Int) (r : Rec) (seq : List Nat)
+    (hp : seq.Perm (List.range n)) :
+    cost n D r = (seq.map (fun j => D j (r j))).sum := by
+  unfold cost
+  exact (perm_sum_int (hp.map _)).symm
+
+theorem map_getD_range (L : List Nat) : (List.range L.length).map (fun j => L.getD j 0) = L := by
+  apply List.ext_getElem (by simp)
+  intro i h1 h2
+  simp at h1
+  simp [List.getD_eq_getElem?_getD, List.getElem?_eq_getElem h1]
+
+/-- **the objective does not depend on the orientation of the tour**: for a symmetric distance matrix the
+reversed tour (`rec.argsort()`, the predecessor array) has the same length. -/
+theorem cost_reverse (n : Nat) (D : Nat → Nat → Int) (hD : ∀ a b, D a b = D b a) (r : Rec) (ht : IsTour r n) :
+    cost n D (argsort n r) = cost n D r := by
+  have hp := map_perm_of_isTour r n ht
+  have hmap := argsortL_map n r hp
+  have hlen : (argsortL n r).length = n := by
+    have := congrArg List.length hmap; simpa using this
+  have hL : (List.range n).map (argsort n r) = argsortL n r := by
+    have := map_getD_range (argsortL n r)
+    rw [hlen] at this; exact this
+  have hperm : ((List.range n).map (argsort n r)).Perm (List.range n) := by
+    rw [hL]; exact isortBy_perm r (List.range n)
+  rw [cost_eq_sum_listing n D r _ hperm]
+  unfold cost
+  rw [List.map_map]
+  congr 1
+  apply List.map_congr_left
+  intro j hj
+  have hj' := List.mem_range.mp hj
+  simp only [Function.comp]
+  -- r (argsort j) = j
+  have hval : r (argsort n r j) = j := by
+    have := congrArg (fun l => l[j]?) hmap
+    simp only [List.getElem?_map, List.getElem?_range hj'] at this
+    have hj2 : j < (argsortL n r).length := by omega
+    rw [List.getElem?_eq_getElem hj2] at this
+    have e : argsort n r j = (argsortL n r)[j] := by
+      simp [argsort, List.getD_eq_getElem?_getD, List.getElem?_eq_getElem hj2]
+    rw [e]; simpa using this
+  rw [hval, hD]
+
+end Rl4co.Improve.Check
